@@ -57,6 +57,10 @@ def step (_ : Unit) (op impl : String) : Unit × StepOut :=
         let g := got.getD i ("", "")
         (if ex.1 != g.1 then [("e2e_fields_body_equal", "-", s!"exchange {i}: handler saw `{g.1}` expected `{ex.1}`")] else []) ++
         (if ex.2 != g.2 then [("e2e_fields_body_equal", "-", s!"exchange {i}: client saw `{g.2}` expected `{ex.2}`")] else []) ++
+        -- many concurrent requests on one connection: every one of them is carried to its handler and back
+        (if e.bf.isNone && (!g.1.startsWith "srv m=" || !g.2.startsWith "cli st=") then
+            [("concurrent_requests_all_complete", "-", s!"exchange {i} of {es.length} concurrent exchanges on one connection did not complete: handler `{(g.1.take 60).toString}`, client `{(g.2.take 90).toString}`")]
+          else []) ++
         -- the bytes the handler got before the abort are a prefix of the body, at most k of them
         (match e.bf with
           | some k =>
@@ -113,6 +117,7 @@ def step (_ : Unit) (op impl : String) : Unit × StepOut :=
         (if es.any (fun e => e.tw.isSome) then ["head-twin"] else []) ++
         (if es.any (fun e => e.autoContentLength.isSome) then ["auto-cl"] else []) ++
         (if es.any (fun e => e.bLen > 16000 || e.rbLen > 16000) then ["big-body"] else []) ++
+        (if es.length ≥ 6 then ["many-concurrent"] else []) ++ (if es.length ≥ 12 then ["many-concurrent:12+"] else []) ++
         (if getKey fs "win" != "0" && getKey fs "win" != "" then ["small-window", "big-headers"] else []) ++
         (if es.any (fun e => !e.t.isEmpty && e.ta == 0) then ["trailers-unannounced"] else []) ++
         (if es.any (fun e => !e.t.isEmpty && e.ta == 2) then ["trailers-partly-announced"] else []) ++
